@@ -120,15 +120,19 @@ func (c *aggregateCursor) NextAggData() (*record.Record, *comm.FileInfo, error) 
 			continue
 		}
 		if c.fileInfo != nil && info != c.fileInfo {
-			c.unreadRecordWithInfo(inRecord, info)
 			currInfo := c.fileInfo
 			c.fileInfo = info
 			if newRecord.RowNums() > 0 {
+				c.unreadRecordWithInfo(inRecord, info)
 				return newRecord, currInfo, err
 			}
 			if c.schema.Options().IsPromQuery() {
+				c.unreadRecordWithInfo(inRecord, info)
 				continue
 			}
+			// nothing to hand over yet: go on with this record. It must not stay in the
+			// buffer: the look-ahead below would find the record itself and it would be
+			// reduced twice.
 		}
 		if newRecord.RowNums() >= c.maxRecordSize {
 			currInfo := c.fileInfo
